@@ -67,9 +67,9 @@ CLAIMS.update({
     "C16": dict(engine="lib", note=LIB_NOTE, technique="runtime monitoring: discovered sysfs.System vs generating machine model; topology-aware pool tree vs shape computed from model + configuration",
                 text="Exploration: thousands of generated machines written as sysfs trees (one in six with the pre-5.3 attribute names only); every accessor of the discovered system is compared with the generating model; for several configurations per machine the real topology-aware backend is set up (directly, or by Reconfigure() on a backend set up with the previous configuration) and its pool tree (root, levels, CPU splits, memory attachment incl. CPU-less PMEM/HBM nodes) is compared with the documented shape.",
                 ref="DESIGN.md §4 C16"),
-    "C17": dict(engine="agent", note="Trusted base: the Go toolchain; the in-package test driver (fake ConfigInterface, recorder callback). The watch plumbing is not driven: events are fed to the agent's two update functions exactly as the select loop of Agent.Start calls them.",
-                technique="runtime monitoring: exhaustive event-sequence enumeration to depth 5/7 with trace invariants and a doc-derived reference state machine",
-                text="Exploration, exhaustive up to the stated depth: every sequence of watch events over a 15-event alphabet is fed to a fresh Agent; after every event the notify/patch trace is checked against precedence, fallback, re-delivery suppression and validation invariants.",
+    "C17": dict(engine="agent", note="Trusted base: the Go toolchain; the in-package test driver (fake ConfigInterface, recorder callback). Precedence engine: events are fed to the agent's two update functions exactly as the select loop of Agent.Start calls them. Event-delivery engine: the real ObjectWatch runs against a scripted fake API server (CreateFn and inner watch); its bounded-progress verdict uses a wall-clock bound of 4 x the code's reopen delay.",
+                technique="runtime monitoring: exhaustive event-sequence enumeration to depth 5/7 with trace invariants and a doc-derived reference state machine; bounded-progress and exactly-once delivery monitor on the real ObjectWatch under injected watch expiry / API faults",
+                text="Exploration, exhaustive up to the stated depth: every sequence of watch events over a 15-event alphabet is fed to a fresh Agent; after every event the notify/patch trace is checked against precedence, fallback, re-delivery suppression and validation invariants. Event-delivery layer: the real ObjectWatch is driven through every sequence of 2 (thorough 3) phases over {watch expires, Error event} x {0..3 refused re-creations}: the watch must keep retrying (next attempt within 4 x reopenDelay), and events must flow again exactly once, in order.",
                 ref="DESIGN.md §4 C17"),
     "C18": dict(engine="lib", note=LIB_NOTE + " Side plugins: in-package test drivers (overlay) calling the real CreateContainer/StartContainer/parseEpcLimit; reference resolvers written from docs/memory/*.md.",
                 technique="runtime monitoring: doc-derived reference resolver vs real lookups under shuffled map insertion orders; reduced-map equivalence (annotations for other containers have no effect); explicit parameter vs class-derived value",
@@ -78,7 +78,7 @@ CLAIMS.update({
     "C19": dict(engine="lib", note=LIB_NOTE, technique="runtime monitoring: operator duality, doc-derived reference evaluator, joint keys, weight clamping, balloon-type selection through the real policy",
                 text="Exploration: hundreds of thousands of expressions evaluated on real cache pods/containers against dual-operator laws and a reference evaluator written from the documentation; affinity weights parsed from real annotations; balloon type observed in the real balloons policy against the documented selection order (random allocator priorities, pre-created instances, types re-ordered by a reconfiguration).",
                 ref="DESIGN.md §4 C19"),
-    "C20": dict(engine="lib", note=LIB_NOTE, technique="runtime monitoring: exhaustive CPU encode/decode laws; sampled + structured memory capacities with full adjustment round trips",
+    "C20": dict(engine="lib", note=LIB_NOTE, technique="runtime monitoring: exhaustive CPU encode/decode laws (default and 15 other CFS periods); sampled + structured memory capacities with full adjustment round trips",
                 text="Exploration (CPU part exhaustive): all milli-CPU values 0..256000, all shares 2..262144 and all quotas are checked for tolerance, exactness and monotonicity; the memory estimate table is built under recover for >100k capacities >= 1 MiB and every Burstable adjustment is round-tripped; containers of the three QoS classes go through the real cache.",
                 ref="DESIGN.md §4 C20"),
 })
@@ -114,7 +114,7 @@ def main():
         "setup_cmd": "./check setup",
         "hooks": {
             "guard": "verif",
-            "enable": "go build -tags verif -overlay /verif/.build/overlay.json (all hook/accessor files live under /verif/overlay with //go:build verif and are injected at build time; /repo carries no hook code). Files: overlay/pkg/resmgr/verif_harness.go, overlay/pkg/resmgr/cache/verif_access.go, overlay/pkg/resmgr/control/cpu/verif_access.go, overlay/pkg/agent/verif_access.go, overlay/pkg/agent/verif_agent_test.go, overlay/cmd/plugins/topology-aware/policy/verif_snapshot.go, overlay/cmd/plugins/topology-aware/policy/verif_prefs.go, overlay/cmd/plugins/balloons/policy/verif_snapshot.go, overlay/cmd/plugins/{memory-qos,memtierd,sgx-epc}/verif_side_test.go",
+            "enable": "go build -tags verif -overlay /verif/.build/overlay.json (all hook/accessor files live under /verif/overlay with //go:build verif and are injected at build time; /repo carries no hook code). Files: overlay/pkg/resmgr/verif_harness.go, overlay/pkg/resmgr/cache/verif_access.go, overlay/pkg/resmgr/control/cpu/verif_access.go, overlay/pkg/agent/verif_access.go, overlay/pkg/agent/verif_agent_test.go, overlay/pkg/agent/watch/verif_watch_test.go, overlay/cmd/plugins/topology-aware/policy/verif_snapshot.go, overlay/cmd/plugins/topology-aware/policy/verif_prefs.go, overlay/cmd/plugins/balloons/policy/verif_snapshot.go, overlay/cmd/plugins/{memory-qos,memtierd,sgx-epc}/verif_side_test.go",
             "baseline_off_cmd": "cd /repo && go test -mod=mod -json -vet=off -count=1 -timeout 25m ./... ; cd /repo/pkg/topology && go test -json -vet=off -count=1 -timeout 25m ./...",
             "source_commits": [],
             "add_only": True,
